@@ -3,7 +3,10 @@
 Workload: generated tar archives (members with parent-directory segments, absolute names,
 symlink members followed by members written through them, hard links to outside files that are
 then overwritten, two archives of which the first plants the symlink, fifo members, deep / odd
-names, benign controls), link+copy reference sets (directories containing outward symlinks, a
+names, benign controls; link members at depth under both readings of their link name; symlink
+members that resolve INSIDE the working directory followed by a member that leaves it only through
+that link - 'up -> .', 'up/../x' - as file, directory, symlink, hard link, hard-link name or second
+symlink: family linkhop_*), link+copy reference sets (directories containing outward symlinks, a
 ':copy' whose basename equals an already staged ':link'), staged through the REAL
 ``Job.stageIn`` of a real experiment; and generated manifests (keys with ``..`` segments, absolute
 keys, keys nested under a linked entry, a linked ``conf``, benign controls, :copy and :link)
@@ -150,6 +153,12 @@ class World:
 
 # ======================================================================================= staging
 
+def _in_wd(members, wd):
+    """Members with the working-directory placeholder of link targets filled in."""
+    return [dict(m, target=m["target"].replace(G.WD_PLACEHOLDER, wd)) if G.WD_PLACEHOLDER in m.get("target", "") else m
+            for m in members]
+
+
 class StagingHarness:
     def __init__(self):
         if vlib.REPO not in sys.path:
@@ -188,7 +197,9 @@ class StagingHarness:
         wd = self.jobs["ext"].workingDirectory.path
         return len(os.path.relpath(wd, self.top).split(os.sep)) - 1
 
-    def gen(self, idx):
+    def gen(self, idx, family=None):
+        if family == "linkhop":     # harmless link member + a member that only leaves through it, every combination
+            return G.gen_link_hop_case(idx, idx)
         if idx % 9 == 8:      # 9 is coprime to the number of archive classes (17): every class keeps appearing
             c = G.gen_copylink_case(idx)
             if idx % 2 == 0:
@@ -206,9 +217,9 @@ class StagingHarness:
         job.isStaged = False
         data = os.path.join(self.inst, "data")
         if case["kind"] == "archive":
-            G.write_tar(os.path.join(data, "a.tar"), case["members"], case["compress"], case["format"])
+            G.write_tar(os.path.join(data, "a.tar"), _in_wd(case["members"], wd), case["compress"], case["format"])
             if case["second"] is not None:
-                G.write_tar(os.path.join(data, "b.tar"), case["second"], "", case["format"])
+                G.write_tar(os.path.join(data, "b.tar"), _in_wd(case["second"], wd), "", case["format"])
         elif case["cls"] == "copy_dir_with_outward_symlinks":
             dd = os.path.join(data, "dd")
             _empty_dir(dd)
@@ -259,7 +270,7 @@ class DeployHarness:
         for s in self.shadows:
             shutil.rmtree(s, ignore_errors=True)
 
-    def gen(self, idx):
+    def gen(self, idx, family=None):
         return G.gen_manifest_case(idx, 3)
 
     def run(self, case, w):
@@ -372,6 +383,17 @@ def has_dotdot_beyond_links(case):
     return False
 
 
+def _hop_text(case):
+    lk = case["link"]
+    return ("symlink member '%s' -> '%s' resolves inside the working directory; the %s behind it climbs %d level(s) "
+            "above the working directory only once that link exists on disk%s" % (
+                lk["name"], lk["target"],
+                {"file": "regular member", "dir": "directory member", "sym": "symlink member", "hardname": "hard-link member",
+                 "hardtarget": "hard-link name (then overwritten)", "chain_followed": "second symlink (then written through)",
+                 "chain_alone": "second symlink"}[case["mode"]],
+                case["levels_above"], ", link planted by the first of two archives" if case["second"] is not None else ""))
+
+
 def judge(case, raised, changes, out_events, rec, target, err_class, err_name, w, manifest=None):
     w.count("cases_judged")
     w.count("audit_events_seen", len(rec.events))
@@ -385,6 +407,7 @@ def judge(case, raised, changes, out_events, rec, target, err_class, err_name, w
     # nlink-only changes are the creation of a hard link to an outside file: not a modification by itself
     real_changes = [c for c in changes if c["change"] != "nlink"]
     escaped = bool(real_changes or out_events)
+    hop = case.get("family") == "linkhop"
     if escaped:
         w.count("escapes_observed")
         what = "%s %s '%s' %s outside %s: %s%s" % (
@@ -392,15 +415,26 @@ def judge(case, raised, changes, out_events, rec, target, err_class, err_name, w
             "wrote", "the working directory" if case["kind"] != "manifest" else "the instance directory",
             [(c["change"], c["path"]) for c in real_changes[:3]] or [(e["event"], e["effect"]) for e in out_events[:3]],
             "" if raised is not None else " and no error was raised")
+        if hop:
+            what += " [%s]" % _hop_text(case)
         res.append((what, wit, classify(case, real_changes, out_events, raised)))
     else:
         w.count("confined")
+    if hop:
+        w.count("linkhop_%s" % ("really_outside" if case["really_outside"] else "really_inside"))
+        if case["really_outside"]:
+            w.count("linkhop_outside_%s" % ("escaped" if escaped else "confined"))
+            w.count("linkhop_outside_%s" % ("accepted" if raised is None else
+                                            "rejected_with_expected_error" if isinstance(raised, err_class) else
+                                            "rejected_with_other_error"))
+        else:
+            w.count("linkhop_inside_%s" % ("accepted" if raised is None else "rejected"))
     if case["offending"] is True:
         w.count("offending_cases")
         if raised is None:
             if not escaped:
-                res.append(("offending %s '%s' was accepted without any error (nothing observed outside)" % (
-                    case["kind"], case["cls"]), wit, None))
+                res.append(("offending %s '%s' was accepted without any error (nothing observed outside)%s" % (
+                    case["kind"], case["cls"], " [%s]" % _hop_text(case) if hop else ""), wit, None))
         elif not isinstance(raised, err_class):
             res.append(("offending %s '%s' was rejected with %s instead of %s" % (
                 case["kind"], case["cls"], type(raised).__name__, err_name), wit, None))
@@ -424,11 +458,12 @@ def run_job(job, w):
     h = StagingHarness() if job["kind"] == "staging" else DeployHarness()
     try:
         for idx in range(job["lo"], job["hi"]):
-            case = h.gen(idx)
+            case = h.gen(idx, job.get("family"))
             verdicts = h.run(case, w)
             w.evaluated()
-            w.count("%s_cases" % job["kind"])
-            w.count("class|%s|%s" % (case["kind"], case["cls"]))
+            w.count("%s_cases" % job.get("family", job["kind"]))
+            w.count("class|%s|%s" % (case["kind"], case["cls"] if case.get("family") != "linkhop" else
+                                     "linkhop_%s_%s" % (case["mode"], "outside" if case["really_outside"] else "inside")))
             w.distinct("%s|%s|%s|%s" % (case["kind"], case["cls"], case.get("compress", case.get("via", "")),
                                         _shape(case)))
             if idx % 131 == 0:
@@ -506,16 +541,25 @@ def main():
     step = 350 if thorough else 40
     for lo in range(0, n_stage, step):
         jobs.append({"kind": "staging", "lo": lo, "hi": min(n_stage, lo + step)})
+    # harmless link member + member leaving only through it: a multiple of the number of combinations
+    n_combos = len(G.link_hop_combos())
+    n_hop = n_combos * (12 if thorough else 1)
+    step = 161 if thorough else 23
+    for lo in range(0, n_hop, step):
+        jobs.append({"kind": "staging", "family": "linkhop", "lo": lo, "hi": min(n_hop, lo + step)})
     step = 250 if thorough else 39
     for lo in range(0, n_deploy, step):
         jobs.append({"kind": "manifest", "lo": lo, "hi": min(n_deploy, lo + step)})
     vlib.fanout("checks.C18", jobs, c, timeout=900 if thorough else 240)
     c.floor("staging_cases", n_stage)
+    c.floor("linkhop_cases", n_hop)
+    c.floor("linkhop_really_outside", n_hop // 3)
+    c.floor("linkhop_really_inside", n_hop // 4)
     c.floor("manifest_cases", n_deploy)
     c.floor("offending_cases", (n_stage + n_deploy) * 2 // 5)
     c.floor("benign_accepted", (n_stage + n_deploy) // 8)
-    c.floor("audit_events_seen", (n_stage + n_deploy) * 2)
-    c.floor("cases_judged", n_stage + n_deploy)
+    c.floor("audit_events_seen", (n_stage + n_deploy + n_hop) * 2)
+    c.floor("cases_judged", n_stage + n_deploy + n_hop)
     sys.exit(c.finish())
 
 
